@@ -49,6 +49,7 @@ def run(chk, tier):
     # "a gap-free ascending run … each probed hop carrying its own TTL" needs every TTL of the round to be probed: the TTL effects of issuing and
     # re-issuing a probe (a re-issued TCP probe keeps its TTL, otherwise that hop is skipped and the next one probed twice) are C06.R2's
     run_sub(chk, 'c06', 'C06.', {'R2'})
+    run_sub(chk, 'c05', 'C05.', {'R8'})      # every probe of the round reaches its hop (no take / skip on the way): each probed hop carries its own TTL
     cg = CallGraph(prog)
     for r, d, fl in (('R1', 'the per-flow map always holds the default flow; flows are only added', 3), ('R2', 'lowest/highest ttl bookkeeping', 4),
                      ('R3', 'largest_ttl decision table of publish_trace', 3), ('R4', 'reader / updater panic audit under the stated invariants', 8), ('R4t', 'loops terminate', 0)):
